@@ -15,7 +15,8 @@ def phraseOK (p : Text) : Bool :=
   !p.isEmpty && p.head? != some cliQuote && p.getLast? != some cliQuote && p.all (fun c => !sylSep c)
 
 def wellFormed (r : Rec) : Bool :=
-  phraseOK r.phrase && decide (r.freq < 4294967296) && r.syls.all sylOK
+  phraseOK r.phrase && decide (r.freq < 4294967296) && r.syls.all sylOK &&
+  !r.syls.isEmpty && r.syls.length == r.phrase.length
 
 /-- the records the round trip is stated for (decidable) -/
 def WellFormedRecord (r : Rec) : Prop := wellFormed r = true
@@ -29,8 +30,111 @@ def zeroFreq (keep : Bool) (r : Rec) : Rec :=
 theorem wellFormed_iff {r : Rec} : WellFormedRecord r ↔
     (r.phrase ≠ [] ∧ r.phrase.head? ≠ some cliQuote ∧ r.phrase.getLast? ≠ some cliQuote ∧
       (∀ c ∈ r.phrase, sylSep c = false)) ∧ r.freq < 4294967296 ∧
-    ∀ c ∈ r.syls, Chewing.parse (spell c) = .ok c ∧ spell c ≠ [] := by
+    (∀ c ∈ r.syls, Chewing.parse (spell c) = .ok c ∧ spell c ≠ []) ∧
+    r.syls ≠ [] ∧ r.syls.length = r.phrase.length := by
   simp [WellFormedRecord, wellFormed, phraseOK, sylOK, and_assoc]
+
+/-- the characters rejected in a phrase are the separators of the syllable fields (both literals of the
+    source are regenerated) -/
+theorem phraseSep_eq : phraseSep = sylSep := rfl
+
+/-- **what `parse_line` accepts, field by field**: a first delimiter field that strips to a non-empty phrase
+    without comma / whitespace, a frequency, syllable fields that parse to at least one syllable, as many
+    as the phrase has characters -/
+theorem parseLine_ok_iff {d : Nat} {keep : Bool} {l : Text} {r : Rec} :
+    parseLine d keep l = .ok r ↔
+      ∃ f0 fs n syls, tokens (· == d) l = f0 :: fs ∧ trimQ f0 ≠ [] ∧ (∀ c ∈ trimQ f0, sylSep c = false) ∧
+        parseFreq keep (trimQ f0) (f0 :: fs) = .ok n ∧ parseSyls ((tokens sylSep l).drop 2) = .ok syls ∧
+        syls ≠ [] ∧ syls.length = (trimQ f0).length ∧ r = ⟨trimQ f0, n, syls⟩ := by
+  unfold parseLine
+  cases ht : tokens (· == d) l with
+  | nil => simp
+  | cons f0 fs =>
+    simp only [phraseSep_eq]
+    by_cases he : (trimQ f0).isEmpty = true
+    · have : trimQ f0 = [] := List.isEmpty_iff.mp he
+      simp [this]
+    · have hne : trimQ f0 ≠ [] := fun e => he (by simp [e])
+      simp only [he, Bool.false_eq_true, if_false]
+      by_cases hs : (trimQ f0).any sylSep = true
+      · simp only [hs, if_true]
+        constructor
+        · intro h; cases h
+        · rintro ⟨g0, gs, n, syls, hg, _, hsep, _⟩
+          obtain ⟨rfl, rfl⟩ := List.cons.inj hg
+          obtain ⟨c, hc, hcs⟩ := List.any_eq_true.mp hs
+          rw [hsep c hc] at hcs; cases hcs
+      · have hsep : ∀ c ∈ trimQ f0, sylSep c = false := by
+          intro c hc
+          cases hcs : sylSep c with
+          | false => rfl
+          | true => exact absurd (List.any_eq_true.mpr ⟨c, hc, hcs⟩) hs
+        simp only [hs, Bool.false_eq_true, if_false]
+        cases hf : parseFreq keep (trimQ f0) (f0 :: fs) with
+        | error e =>
+          constructor
+          · intro h; cases h
+          · rintro ⟨g0, gs, n, syls, hg, _, _, hfr, _⟩
+            obtain ⟨rfl, rfl⟩ := List.cons.inj hg
+            rw [hf] at hfr; cases hfr
+        | ok n =>
+          cases hp : parseSyls ((tokens sylSep l).drop 2) with
+          | error e =>
+            constructor
+            · intro h; cases h
+            · rintro ⟨g0, gs, n', syls, hg, _, _, _, hsy, _⟩
+              cases hsy
+          | ok syls =>
+            simp only
+            by_cases h0 : syls.isEmpty = true
+            · have : syls = [] := List.isEmpty_iff.mp h0
+              simp only [h0, if_true]
+              constructor
+              · intro h; cases h
+              · rintro ⟨g0, gs, n', syls', hg, _, _, _, hsy, hne', _⟩
+                cases hsy
+                exact absurd this hne'
+            · have hsne : syls ≠ [] := fun e => h0 (by simp [e])
+              simp only [h0, Bool.false_eq_true, if_false]
+              by_cases hl : (syls.length != (trimQ f0).length) = true
+              · simp only [hl, if_true]
+                constructor
+                · intro h; cases h
+                · rintro ⟨g0, gs, n', syls', hg, _, _, _, hsy, _, hlen, _⟩
+                  obtain ⟨rfl, rfl⟩ := List.cons.inj hg
+                  cases hsy
+                  simp [hlen] at hl
+              · have hlen : syls.length = (trimQ f0).length := by simpa using hl
+                simp only [hl, Bool.false_eq_true, if_false]
+                constructor
+                · intro h
+                  exact ⟨f0, fs, n, syls, rfl, hne, hsep, hf, rfl, hsne, hlen, (Except.ok.inj h).symm⟩
+                · rintro ⟨g0, gs, n', syls', hg, _, _, hfr, hsy, _, _, rfl⟩
+                  obtain ⟨rfl, rfl⟩ := List.cons.inj hg
+                  rw [hf] at hfr
+                  cases hfr; cases hsy
+                  rfl
+
+/-- the frequency: the second field as a `u32`, zeroed for a one-character phrase unless kept -/
+theorem parseFreq_ok_iff' {keep : Bool} {p f0 : Text} {fs : List Text} {n : Nat} :
+    parseFreq keep p (f0 :: fs) = .ok n ↔
+      ∃ f1 m, fs.head? = some f1 ∧ parseU32 (trimQ f1) = some m ∧ n = if p.length == 1 && !keep then 0 else m := by
+  unfold parseFreq
+  cases fs with
+  | nil => simp
+  | cons f1 rest =>
+    simp only [List.getElem?_cons_succ, List.getElem?_cons_zero, List.head?_cons, Option.some.injEq]
+    cases hu : parseU32 (trimQ f1) with
+    | none =>
+      constructor
+      · intro h; cases h
+      · rintro ⟨g1, m', rfl, hm, _⟩
+        rw [hu] at hm; cases hm
+    | some m =>
+      constructor
+      · intro h; exact ⟨f1, m, rfl, hu, (Except.ok.inj h).symm⟩
+      · rintro ⟨g1, m', rfl, hm, rfl⟩
+        rw [hu] at hm; cases hm; rfl
 
 /-! ### spelled syllables contain no separator, quote or comment character -/
 
@@ -116,7 +220,7 @@ theorem parseLine_joined (delim d j : Nat) (keep : Bool) (r : Rec) (h : WellForm
     (hdd : d = delim) (hds : sylSep d = true) (hjs : sylSep j = true) (hdelim : sylSep delim = true) :
     parseLine delim keep (r.phrase ++ [d] ++ decimal r.freq ++ [d] ++ joinWith [j] (r.syls.map spell))
       = .ok (zeroFreq keep r) := by
-  obtain ⟨⟨pne, ph, pl, psep⟩, hf, hs⟩ := wellFormed_iff.mp h
+  obtain ⟨⟨pne, ph, pl, psep⟩, hf, hs, hsne, hslen⟩ := wellFormed_iff.mp h
   have hsyl : ∀ c ∈ r.syls, sylOK c = true := by
     intro c hc
     have := hs c hc
@@ -154,21 +258,20 @@ theorem parseLine_joined (delim d j : Nat) (keep : Bool) (r : Rec) (h : WellForm
   have tp : trimQ r.phrase = r.phrase := trimQ_eq ph pl
   have td : trimQ (decimal r.freq) = decimal r.freq :=
     trimQ_of_noquote (fun c hc => (isDigit_not_sep (dd c hc)).2.1)
-  unfold parseLine
-  simp only [t1, t2]
-  simp only [List.drop_succ_cons, List.drop_zero, parseSyls_spell r.syls hsyl, tp]
-  have hfreq : parseFreq keep r.phrase
-      (r.phrase :: decimal r.freq :: tokens (· == d) (joinWith [j] (r.syls.map spell)))
-      = .ok (zeroFreq keep r).freq := by
-    unfold parseFreq zeroFreq
-    by_cases hw : (r.phrase.length == 1 && !keep) = true
-    · simp [hw]
-    · simp [hw, td, parseU32_decimal hf]
-  simp only [hfreq]
-  unfold zeroFreq
-  by_cases hw : (r.phrase.length == 1 && !keep) = true
-  · simp [hw]
-  · simp [hw]
+  apply parseLine_ok_iff.mpr
+  refine ⟨r.phrase, _, (zeroFreq keep r).freq, r.syls, t1, by rw [tp]; exact pne, by rw [tp]; exact psep, ?_, ?_,
+    hsne, by rw [tp]; exact hslen, ?_⟩
+  · rw [tp]
+    apply parseFreq_ok_iff'.mpr
+    refine ⟨decimal r.freq, r.freq, rfl, by rw [td]; exact parseU32_decimal hf, ?_⟩
+    unfold zeroFreq
+    by_cases hw : (r.phrase.length == 1 && !keep) = true <;> simp [hw]
+  · rw [t2]
+    simp only [List.drop_succ_cons, List.drop_zero]
+    exact parseSyls_spell r.syls hsyl
+  · rw [tp]
+    unfold zeroFreq
+    by_cases hw : (r.phrase.length == 1 && !keep) = true <;> simp [hw]
 
 /-- `parse_line(' ', dump line)` -/
 theorem parse_dump_ssv (keep : Bool) (r : Rec) (h : WellFormedRecord r) :
@@ -189,20 +292,18 @@ theorem parse_dump_csv (keep : Bool) (r : Rec) (h : WellFormedRecord r) :
     `syls`, parses to that record -/
 theorem parseLine_of_tokens {d : Nat} {keep : Bool} {line fp ff p : Text} {rest1 : List Text} {f : Nat}
     {syls : List Nat} (h1 : tokens (· == d) line = fp :: ff :: rest1) (hp : trimQ fp = p)
-    (hf : parseU32 (trimQ ff) = some f) (hs : parseSyls ((tokens sylSep line).drop 2) = .ok syls) :
+    (hf : parseU32 (trimQ ff) = some f) (hs : parseSyls ((tokens sylSep line).drop 2) = .ok syls)
+    (hpne : p ≠ []) (hpsep : ∀ c ∈ p, sylSep c = false) (hsne : syls ≠ []) (hlen : syls.length = p.length) :
     parseLine d keep line = .ok (zeroFreq keep ⟨p, f, syls⟩) := by
-  unfold parseLine
-  simp only [h1, hs, hp]
-  have hfreq : parseFreq keep p (fp :: ff :: rest1) = .ok (zeroFreq keep ⟨p, f, syls⟩).freq := by
-    unfold parseFreq zeroFreq
-    by_cases hw : (p.length == 1 && !keep) = true
-    · simp [hw]
-    · simp [hw, hf]
-  simp only [hfreq]
-  unfold zeroFreq
-  by_cases hw : (p.length == 1 && !keep) = true
-  · simp [hw]
-  · simp [hw]
+  apply parseLine_ok_iff.mpr
+  subst hp
+  refine ⟨fp, _, (zeroFreq keep ⟨trimQ fp, f, syls⟩).freq, syls, h1, hpne, hpsep, ?_, hs, hsne, hlen, ?_⟩
+  · apply parseFreq_ok_iff'.mpr
+    refine ⟨ff, f, rfl, hf, ?_⟩
+    unfold zeroFreq
+    by_cases hw : ((trimQ fp).length == 1 && !keep) = true <;> simp [hw]
+  · unfold zeroFreq
+    by_cases hw : ((trimQ fp).length == 1 && !keep) = true <;> simp [hw]
 
 /-- a field starting with `#` ends the record -/
 theorem parseSyls_comment {t : Text} (cm : List Text) (h : (trimQ t).head? = some cliComment) :
@@ -270,7 +371,7 @@ theorem parse_renderLine (d : Nat) (keep : Bool) (qp qf : Bool) (g1 g2 gs : Text
     (hg1 : g1 ≠ [] ∧ ∀ c ∈ g1, c = d) (hg2 : g2 ≠ [] ∧ ∀ c ∈ g2, c = d)
     (hgs : gs ≠ [] ∧ AllSep sylSep gs) (hcm : ∀ gc c, cm = some (gc, c) → gc ≠ [] ∧ AllSep sylSep gc) :
     parseLine d keep (renderLine qp qf g1 g2 gs cm r) = .ok (zeroFreq keep r) := by
-  obtain ⟨⟨pne, ph, pl, psep⟩, hf, hs⟩ := wellFormed_iff.mp h
+  obtain ⟨⟨pne, ph, pl, psep⟩, hf, hs, hsne, hslen⟩ := wellFormed_iff.mp h
   have hsyl : ∀ c ∈ r.syls, sylOK c = true := by
     intro c hc
     have := hs c hc
@@ -311,6 +412,7 @@ theorem parse_renderLine (d : Nat) (keep : Bool) (qp qf : Bool) (g1 g2 gs : Text
   unfold renderLine
   refine parseLine_of_tokens (fp := quoteIf qp r.phrase) (ff := quoteIf qf (decimal r.freq))
     (rest1 := tokens (· == d) (renderTail gs cm r)) ?_ tp (by rw [td]; exact parseU32_decimal hf) ?_
+    pne psep hsne hslen
   · rw [tokens_append_gap _ PD Pne g1d hg1.1, tokens_append_gap _ FD Fne g2d hg2.1]
   · rw [tokens_append_gap _ PS Pne g1s hg1.1, tokens_append_gap _ FS Fne g2s hg2.1]
     simp only [List.drop_succ_cons, List.drop_zero]
